@@ -33,8 +33,8 @@ CLAIMED = {
          'std models; default feature set; constant diagrams excluded for path cubes'),
  'C14': ('5/C14', 'both round trips executed symbolically after seeded call histories (and the --export guard of the CLI, see note): (a) Bdd::from(nodes) + Adf::from((ordering, bdd, ac)); (b) JSON import modelled from the serde derive attributes read off the source each run (validated against real serde_json natively) followed by the real fix_import. Checked: node list and roots index by index, every answer vs a fresh object, semantic audit of the imported private tables (supports, counts, unique table) by z3, the C06 invariants, and continued construction on the imported store.',
          'serde_json encoder/decoder internals are under a contract model; stores are native-shaped (variable nodes first) and bridged-shaped (only the diagrams\' nodes, as Adf::from_biodivine_vector leaves them); the CLI half (--export never overwrites) is decided on App::run of the binary crate with a stub file system whose exists() is a solver variable (a create of a path not known to be absent is the violation; replayed with the real binary on a real existing file) - the operating system itself is outside'),
- 'C16': ('5/C16, 10.2', 'kernels only: the MIR of the server binary merged with the library MIR is executed symbolically - (i) SimplifiedAdf::from(Adf) then Adf::from(SimplifiedAdf) reproduces nodes, roots and names and the rebuilt object answers all six strategies like a fresh one; (ii) DoubleLabeledGraph::from_adf_and_ac on the ADF and on every model of every strategy: node set = reachable set, edges = node table, labels, and z3 decides that following the picture from each root evaluates the submitted acceptance condition under every assignment agreeing with the shown model.',
-         'OUTSIDE the claim: HTTP/actix handlers, async task bookkeeping, MongoDB, timeouts, strategy dispatch closure, parse strategies, error reporting for unparseable code. std/Arc/RwLock/String models; native replay compiles the kernels from the server source text'),
+ 'C16': ('5/C16, 10.2, 10.7', 'the MIR of the server binary merged with the library MIR is executed symbolically - (i) SimplifiedAdf::from(Adf) then Adf::from(SimplifiedAdf) reproduces nodes, roots and names and the rebuilt object answers all six strategies like a fresh one; (ii) DoubleLabeledGraph::from_adf_and_ac on the ADF and on every model of every strategy: node set = reachable set, edges = node table, labels, and z3 decides that following the picture from each root evaluates the submitted acceptance condition under every assignment agreeing with the shown model; (iii) the synchronous closures that add_adf_problem and solve_adf_problem hand to spawn_blocking, on submitted TEXTS whose acceptance conditions are symbolic (every condition in full DNF with minterms guarded by c(v)/c(f), the distinguishing byte a solver variable): parse, compile by either parsing strategy, stored form, parse-only picture, then for each of the six strategies the real dispatch on the stored form - stored answers = definitional answers for the submitted text, every picture faithful, the set of running tasks restored after each closure; malformed texts (concrete and short symbolic ones judged by the reference reader) are never answered with Ok; AdfProblemInfo::from_adf_prob_and_tasks reports exactly the running entries of that user and problem.',
+         'OUTSIDE the claim: HTTP/actix, MongoDB (the stored form is handed from the first closure to the second directly), tokio timeout/spawn and the async continuations that write results to the database, has_been_solved, authentication (C17). std/Arc/RwLock/Mutex/String models, web::Data as a cell, nom under models (as C08), Hybrid parsing on the biodivine contract model; native replay compiles the kernels and the two closure bodies from the server source text. Bounded: all 256 two-statement ADFs, seeded three-statement families'),
  'C18': ('5/C18', 'all of nogoods.rs executed symbolically: sequences of symbolic nogoods (bit-vector pairs) under every duplicate-elimination mode, a symbolic partial interpretation; z3 decides against the 2^V total assignments that the store excludes exactly what was added, conclusions are forced, conflicts are neither spurious nor missed; conclusion_closure (crate-private) likewise.',
          'roaring bitmap as 32-bit vector; V<=3-4, K<=2-3 (thorough: K=4 at V=3 under Subsume with the first nogood fixed up to symmetry); the empty nogood; stores with fewer arity buckets than variables'),
  'C20': ('5/C20', 'both iterators executed symbolically on vectors of unconstrained 64-bit handles (one path per decided/undecided pattern, all values at once): item count 2^k / 3^k, pairwise distinct, decided positions untouched, first item = input (three-valued), None forever afterwards.',
